@@ -23,7 +23,8 @@ import (
 //
 // Faults. Two one-shot storage faults: the compare-and-swap that writes status "valid" into an
 // order, and any compare-and-swap on the challenge table; and, for the duration of one request,
-// the failure of every update write of one chosen record (denyTbl/denyKey).
+// the failure of every update write of one chosen record (denyTbl/denyKey), of the k-th create write
+// of a challenge / authorization / order, of the order index write, of the Wire token write.
 type shiftDB struct {
 	nosql.DB
 	off            time.Duration
@@ -31,13 +32,24 @@ type shiftDB struct {
 	failChallenge  bool
 	// while set: every compare-and-swap of this existing record fails
 	denyTbl, denyKey []byte
+	// createFail >= 0: the createFail-th (from 0) create write of a challenge / authorization / order of
+	// this request fails; creates counts them, created logs the ones that were stored, in order
+	createFail, creates int
+	created             []createdKey
+	denyIndex           bool // the write of an account's order index fails
+	denyToken           bool // the write of a Wire token fails
 }
+
+type createdKey struct{ tbl, key string }
 
 var (
 	reExpires  = regexp.MustCompile(`"expiresAt":"([^"]+)"`)
 	orderTbl   = []byte("acme_orders")
 	authzTbl   = []byte("acme_authzs")
 	chalTbl    = []byte("acme_challenges")
+	indexTbl   = []byte("acme_account_orders_index")
+	oidcTbl    = []byte("wire_acme_oidc_token")
+	dpopTbl    = []byte("wire_acme_dpop_token")
 	errInject  = errors.New("injected storage fault")
 	validBytes = []byte(`"status":"valid"`)
 )
@@ -77,6 +89,20 @@ func (s *shiftDB) CmpAndSwap(bucket, key, oldValue, newValue []byte) ([]byte, bo
 	if s.denyTbl != nil && oldValue != nil && bytes.Equal(bucket, s.denyTbl) && bytes.Equal(key, s.denyKey) {
 		return nil, false, errInject
 	}
+	if s.denyIndex && bytes.Equal(bucket, indexTbl) {
+		return nil, false, errInject
+	}
+	if s.denyToken && (bytes.Equal(bucket, oidcTbl) || bytes.Equal(bucket, dpopTbl)) {
+		return nil, false, errInject
+	}
+	isCreate := oldValue == nil && (bytes.Equal(bucket, chalTbl) || bytes.Equal(bucket, authzTbl) || bytes.Equal(bucket, orderTbl))
+	if isCreate {
+		n := s.creates
+		s.creates++
+		if s.createFail >= 0 && n == s.createFail {
+			return nil, false, errInject
+		}
+	}
 	if s.failChallenge && bytes.Equal(bucket, chalTbl) && oldValue != nil {
 		s.failChallenge = false
 		return nil, false, errInject
@@ -89,6 +115,9 @@ func (s *shiftDB) CmpAndSwap(bucket, key, oldValue, newValue []byte) ([]byte, bo
 		oldValue, newValue = shift(oldValue, s.off), shift(newValue, s.off)
 	}
 	v, ok, err := s.DB.CmpAndSwap(bucket, key, oldValue, newValue)
+	if isCreate && err == nil && ok {
+		s.created = append(s.created, createdKey{string(bucket), string(key)})
+	}
 	if shifted(bucket) {
 		v = shift(v, -s.off)
 	}
